@@ -10,6 +10,8 @@ F_OR = "C11-or-unconstrained"
 F_ACC = "C11-key-accumulation"
 F_DROP = "C11-stale-shardkey-after-dropped-row"
 F_SKI = "C11-stale-shardkey-across-groups"
+F_HINT = "C11-hint-query-ignores-shardkey"
+BB_SHARDKEYS = {"cpu": ["host"], "mem": ["region"], "net": ["dc", "host"], "disk": []}   # as created by cmd/c11bb
 NV = 32
 FULL = (1 << NV) - 1
 
@@ -265,12 +267,12 @@ def blackbox(ck):
         return
     conf = os.path.join(ck.repo, "config", "openGemini.singlenode.conf")
     runs = [(4, 20)] if ck.tier == "quick" else [(8, 250), (3, 150)]
-    total = diff = refdiff = 0
+    total = diff = refdiff = hint_hits = 0
     with vlib.Lock(os.path.join(ck.verif, "build", "c11-ports.lock")):   # ports 21100-21129 are used by one run at a time
         for k, (ptnum, nq) in enumerate(runs):
             wd = os.path.join(ck.work, "bb%d" % k)
             os.makedirs(wd, exist_ok=True)
-            rc, out = ck.run([bb, srv, conf, "21100", wd, str(ptnum), str(nq)], timeout=900, env={"VERIF_SEED": str(ck.seed + k)})
+            rc, out = ck.run([bb, srv, conf, "21100", wd, str(ptnum), str(nq)], timeout=900, env={"VERIF_SEED": str(ck.seed + k), "C11BB_HINTS": "1"})
             outs = []
             for l in out.splitlines():
                 if l.startswith('{"kind"'):
@@ -294,6 +296,14 @@ def blackbox(ck):
                         diff += 1
                         ck.violation({"kind": "black-box", "what": "one server answers, the other fails", "ptnum": ptnum, "query": o})
                     continue
+                if o["a"] != o["b"] and re.search(r"/\*\+\s*(full_series|specific_series)\s*\*/", o["q"]) \
+                        and BB_SHARDKEYS.get(o.get("mst")) and ptnum > 1 and ck.match_finding(F_HINT):
+                    # signature of C11-hint-query-ignores-shardkey: hinted query on a measurement with a shard key
+                    hint_hits += 1
+                    if hint_hits == 1:
+                        ck.known_finding(F_HINT, "ts-server with ptnum-pernode 1 and %d answer differently: %s -> %d vs %d rows; e.g. %s" % (
+                            ptnum, o["q"], len(o["a"]), len(o["b"]), (o.get("lines") or [])[:1]))
+                    continue
                 if o["a"] != o["b"]:
                     diff += 1
                     if diff <= 3:
@@ -308,6 +318,7 @@ def blackbox(ck):
     ck.cov["blackbox_queries"] = total
     ck.cov["blackbox_answers_differing"] = diff
     ck.cov["blackbox_reference_disagreements"] = refdiff
+    ck.cov["blackbox_hint_query_finding_hits"] = hint_hits
 
 
 CODE_TXT = {1: "row evaluation (eval_cond)", 3: "HashID (XXH64) of the hashed shard-key bytes",
@@ -315,6 +326,13 @@ CODE_TXT = {1: "row evaluation (eval_cond)", 3: "HashID (XXH64) of the hashed sh
 
 
 def main(ck):
+    # committed per-property entries that the merged known_findings.json does not carry yet (read-only, never written)
+    try:
+        frag = json.load(open(os.path.join(ck.verif, "props", PID, "findings.json")))["findings"]
+        have = {f["id"] for f in ck.findings}
+        ck.findings += [f for f in frag if f.get("property") == PID and f["id"] not in have]
+    except (OSError, ValueError, KeyError):
+        pass
     ck.assumptions += [
         "the index list used for hashing (alive shard indexes, or the per-measurement list) is the same when a point is "
         "written and when the query runs; partitions going offline between the two are outside the model",
